@@ -518,6 +518,7 @@ func c17Get(p string) c17State {
 }
 
 func c17Setstat(u *vfUnit) {
+	syscallUmask()
 	dir := u.TempDir()
 	a, b := filepath.Join(dir, "a"), filepath.Join(dir, "b")
 	rs, err := vfRawConnect(vfSrvCfg{Kind: vfOS}, vfPipeOpts{}, true)
@@ -648,6 +649,38 @@ func c17Setstat(u *vfUnit) {
 		if !ok || sa != sb || owner(la) != owner(lb) {
 			u.Violation(fmt.Sprintf("setstat:via-symlink:flags=%#x", sub), fmt.Sprintf("SETSTAT flags=%#x on a symbolic link to a file: reply %v, target now %+v, link owner %s; the same os calls on a twin give %+v, link owner %s (err %v)", sub, resp, sa, owner(la), sb, owner(lb), terr), map[string]any{"flags": sub})
 		}
+	}
+	// an OPEN that creates a file carries an attribute block too: the permissions in it are those of the block's
+	// permissions field whatever else the block holds (every subset of the flags, with and without extended pairs)
+	for sub := uint32(0); sub < 32; sub++ {
+		at := vfAttrs{Flags: sub & 15, Size: 0x0000_01ED_0000_01FF, UID: 0o444, GID: 0o555, Perm: 0o100000 | 0o640, Atime: 0o777, Mtime: 0o711}
+		if sub&16 != 0 {
+			at.Flags |= rfAttrExt
+			at.Ext = [][2]string{{"a@b", "c"}}
+		}
+		p := filepath.Join(dir, fmt.Sprintf("created-%d", sub))
+		os.Remove(p)
+		id++
+		resp, err := rs.R.Phase(60*time.Second, vfPkt{Type: rfOpen, ID: id, Path: p, Pflags: rfWrite_ | rfCreat_ | rfExcl_, Attrs: at})
+		u.Count("open_attribute_subsets", 1)
+		if err != nil || len(resp) != 1 || resp[0].Type != rfHandle {
+			u.Violation(fmt.Sprintf("open-create:flags=%#x", at.Flags), fmt.Sprintf("creating OPEN with attribute flags %#x answered %v (%v)", at.Flags, resp, err), nil)
+			continue
+		}
+		id++
+		rs.R.Phase(60*time.Second, vfPkt{Type: rfClose, ID: id, Handle: resp[0].Handle})
+		want := os.FileMode(0o644)
+		if at.Flags&rfAttrPerm != 0 {
+			want = 0o640
+		}
+		if fi, err := os.Lstat(p); err != nil || fi.Mode() != want {
+			got := "?"
+			if fi != nil {
+				got = fi.Mode().String()
+			}
+			u.Violation(fmt.Sprintf("open-create-mode:flags=%#x", at.Flags), fmt.Sprintf("creating OPEN with attribute flags %#x and permissions 0640 in the block: the file's mode is %s (err %v), expected %v (umask 022)", at.Flags, got, err, want), nil)
+		}
+		os.Remove(p)
 	}
 	if msg := rs.End(60 * time.Second); msg != "" {
 		u.Violation("setstat:end", msg, nil)
